@@ -369,14 +369,20 @@ class Monitor(object):
             now = ev[2]
             fb = rec.cfg['fallback']
             base = self.became_leader_at.get(nid, now)
-            heard = 1
-            for x in others:
-                t = max(self.heard.get(nid, {}).get(x, -10 ** 9), base, seen.get(x, -10 ** 9))
-                if t > now - fb:
-                    heard += 1
-            if 2 * heard <= len(others) + 1:
+            verdicts = []
+            # the member set the tick decided with: the one before the tick (a membership entry may be appended
+            # later in the same tick) or the one after it
+            before = self.prev_members.get(nid)
+            for oth in ([others] if before is None else [others, set(before) - {nid}]):
+                heard = 1
+                for x in oth:
+                    t = max(self.heard.get(nid, {}).get(x, -10 ** 9), base, seen.get(x, -10 ** 9))
+                    if t > now - fb:
+                        heard += 1
+                verdicts.append((2 * heard > len(oth) + 1, heard, len(oth) + 1))
+            if not any(v[0] for v in verdicts):
                 self.rec('C20', 'node %d still leader at %s although it heard from only %d of %d voters within the fallback timeout %s'
-                         % (nid, now, heard, len(others) + 1, fb))
+                         % (nid, now, verdicts[0][1], verdicts[0][2], fb))
         # has-quorum indicator
         conn = set(sim.tr(nid).connected) & others
         want = 2 * (len(conn) + 1) > len(others) + 1
